@@ -19,12 +19,13 @@ import _wire
 
 def run(c):
     drv = c.build("wire")
-    _wire.mc(c, "WireCsumMC", "WireCsumMC.%s.cfg" % c.tier, timeout=3000)
-    r0 = c.tlc("WireCsumMC", "WireCsumMC.oddtail.cfg", workers=2, timeout=600)
-    if "FlipsDetected" in r0.inv_violated:
-        c.notes.append("model variant OddTail=FALSE (odd last byte dropped): FlipsDetected violated, as expected")
-    else:
-        raise vlib.Infra("the odd-tail model variant did not produce the expected counterexample:\n" + r0.out[-2000:])
+    if not c.replay:
+        _wire.mc(c, "WireCsumMC", "WireCsumMC.%s.cfg" % c.tier, timeout=3000)
+        r0 = c.tlc("WireCsumMC", "WireCsumMC.oddtail.cfg", workers=2, timeout=600)
+        if "FlipsDetected" in r0.inv_violated:
+            c.notes.append("model variant OddTail=FALSE (odd last byte dropped): FlipsDetected violated, as expected")
+        else:
+            raise vlib.Infra("the odd-tail model variant did not produce the expected counterexample:\n" + r0.out[-2000:])
     if c.replay:
         trace = c.replay
     else:
